@@ -31,7 +31,8 @@ INTERNAL = "(event.name in InternalEvents.ALL and ref_event.name in InternalEven
 
 contract(
     SM, "_compute_event_comparison_score", prop="C04", result="r",
-    opaque_here={"_compute_arguments_dict_matching_score": dict(pure=True, result="r", raises=["Exception"],
+    ghost_lists=["scores"],
+    opaque_here={"_compute_arguments_dict_matching_score": dict(pure=True, result="r", raises=["Exception"], log_result="scores",
                                                                 note="the argument matcher: ANY score or exception (its own contract is "
                                                                      "proved separately; nothing of it is used here)"),
                  "deepcopy": dict(pure=True, raises=[], result_class="Event", note="copy.deepcopy(event)")},
@@ -45,6 +46,15 @@ contract(
         "            ref_event.action_uid != event.action_uid), result == 0)" % INTERNAL,
         # internal flow events of different kinds never score positive (Finished vs Failed vs Started are failures or non-matches)
         "implies(old(%s and not (event.name == 'StartFlow' and ref_event.name == 'StartFlow') and event.name != ref_event.name), result <= 0)" % INTERNAL,
+        # the declared flow priority scales the score of EVERY kind of event (UMIM and internal flow events alike): a result other than the
+        # fixed 0 / -1 verdicts is the matcher's last score times the priority (ghost trace `scores`: what the matcher returned)
+        # (the StartFlow comparison has no matcher call: its score is 1 when it matches)
+        "result == 0 or result == -1 or (not truthy(priority) and result == 1) or (truthy(priority) and result == num(priority)) or "
+        "(llen(scores) >= 1 and not truthy(priority) and result == num(item(scores, llen(scores) - 1))) or "
+        "(llen(scores) >= 1 and truthy(priority) and result == num(item(scores, llen(scores) - 1)) * num(priority)) or "
+        # (a StartFlow matcher without a flow_id: the score is additionally damped by 0.9)
+        "(llen(scores) >= 1 and not truthy(priority) and 10 * result == 9 * num(item(scores, llen(scores) - 1))) or "
+        "(llen(scores) >= 1 and truthy(priority) and 10 * result == 9 * num(item(scores, llen(scores) - 1)) * num(priority))",
     ],
     raises={"Exception": "True"},
     assigns=["*"],
